@@ -270,12 +270,21 @@ class QuantMixin:
             if 'term' not in gen_cache and 'dirty' not in gen_cache:
                 istar = z3.Const(f'i*{len(self.q_seqs)}_{self.fresh_counter}', smt.I)
                 c0, r0, q0 = self.fresh_counter, self.next_ref, sum(len(v) for v in self.q_facts.values())
+                n0 = len(self.pc)
                 t = P_slow(istar)
                 if (self.fresh_counter, self.next_ref, sum(len(v) for v in self.q_facts.values())) == (c0, r0, q0):
                     gen_cache['term'], gen_cache['istar'] = t, istar
+                    # facts instantiated lazily while reading at the generic index (member facts of abstract dicts,
+                    # element typing ...) belong to every instance: keep them for substitution
+                    probe = z3.Int('i*probe')
+                    gen_cache['axioms'] = [c for c, ax in zip(self.pc[n0:], self.pc_axiom[n0:])
+                                           if ax and not z3.substitute(c, (istar, probe)).eq(c)]
                 else:
                     gen_cache['dirty'] = True
             if 'term' in gen_cache:
+                if not i.eq(gen_cache['istar']):
+                    for c in gen_cache.get('axioms', ()):
+                        self._add_axiom(smt.simp(z3.substitute(c, (gen_cache['istar'], i))))
                 return smt.simp(z3.substitute(gen_cache['term'], (gen_cache['istar'], i)))
             return P_slow(i)
 
